@@ -64,7 +64,10 @@ def write_evidence(ctx, mod, nviol_new, nknown, stage=None):
         "wall_s": round(time.time() - ctx.t0, 2),
         "violations": nviol_new,
     }
-    d = os.path.join(VERIF, "evidence")
+    d = os.environ.get("VERIF_EVIDENCE_DIR") or os.path.join(VERIF, "evidence")
+    if not os.environ.get("VERIF_EVIDENCE_DIR") and os.path.realpath(build.repo_root()) != "/repo":
+        # a run against a scratch tree (seeded change, pre-fix archive) must not replace the evidence of /repo
+        d = "/var/tmp/esutil-verif-scratch-evidence"
     os.makedirs(d, exist_ok=True)
     side = os.path.join(d, ".%s.asan.json" % ctx.pid)
     if stage == "asan":
